@@ -63,6 +63,15 @@ theorem tie_branches :
     Gen.Queue.mpmcSendCell = "&p.data[p.mask(pos)]" ∧ Gen.Queue.mpmcRecvCell = "&p.data[p.mask(pos)]" ∧
     Gen.Queue.mpscKinds = ["end", "data"] := by decide
 
+/-- `extend` compacts positions tail … head-1 to 0 … size-1 (old index `mask(oldTail+i)`), and `Send`
+decides about growing from a snapshot taken under the read lock -/
+theorem tie_extend :
+    Gen.Queue.mpmcExtendSize = "oldHead - oldTail" ∧ Gen.Queue.mpmcExtendOldIndex = "p.mask(oldTail + i)" ∧
+    Gen.Queue.mpmcExtendNewData = "make([]slot[T], n)" ∧
+    Gen.Queue.mpmcExtendLoops = ["currentSize", "i := currentSize"] ∧
+    Gen.Queue.mpmcSendSnapshot = ["capacity := p.capacity", "extensions := p.extensions", "extended := p.extended"] := by
+  decide
+
 /-- wake-up channels hold one token; `done` of the accumulator is unbuffered (only ever closed) -/
 theorem tie_channel_caps :
     Gen.Queue.mpmcEmptyCap = 1 ∧ Gen.Queue.mpmcFullCap = 1 ∧ Gen.Queue.mpscSignalCap = 1 ∧
@@ -82,7 +91,10 @@ theorem tie_consumer_discipline :
     Gen.Queue.queueMediumClosedType = "bool" ∧ Gen.Queue.accMediumClosedType = "bool" ∧
     Gen.Queue.queueMediumRecvWritesClosed = true ∧ Gen.Queue.accMediumRecvWritesClosed = true ∧
     Gen.Queue.mediumDocSingleConsumer = true ∧ Gen.Queue.queueMediumDocSingleConsumer = true ∧
-    Gen.Queue.mpscTailFieldType = "*node[T]" := by decide
+    Gen.Queue.mpscTailFieldType = "*node[T]" ∧
+    -- Core.ProcessSender reads its sender in the calling goroutine only (workers read an internal channel)
+    Gen.Queue.processSenderRecvOutsideClosures = 1 ∧ Gen.Queue.processSenderRecvInsideClosures = 0 ∧
+    Gen.Queue.processSenderDrainsInSameGoroutine = true := by decide
 
 section MpmcTheorems
 open OpenFGAVerif.Model.Mpmc OpenFGAVerif.Proofs.Mpmc
@@ -495,6 +507,165 @@ theorem mpmc_sent_prefix (s : State) (as bs : List Action) :
       exact this
 
 end Mono
+
+section Pow2
+open OpenFGAVerif.Model.Mpmc OpenFGAVerif.Proofs.Mpmc
+
+theorem and_half (a b : Nat) : (a &&& b) / 2 = a / 2 &&& b / 2 := by
+  have := @Nat.shiftRight_and_distrib 1 a b
+  simpa [Nat.shiftRight_eq_div_pow] using this
+
+/-- the bit trick of `isPowerOfTwo` is sound -/
+theorem pow2_of_bits : ∀ n : Nat, 0 < n → n &&& (n - 1) = 0 → ∃ k, n = 2 ^ k := by
+  intro n
+  induction n using Nat.strongRecOn with
+  | _ n ih =>
+    intro hpos hand
+    by_cases h1 : n = 1
+    · exact ⟨0, by simp [h1]⟩
+    · have hn2 : 2 ≤ n := by omega
+      rcases Nat.mod_two_eq_zero_or_one n with he | ho
+      · have hm : 0 < n / 2 := by omega
+        have hh := and_half n (n - 1)
+        rw [hand] at hh
+        have : (n - 1) / 2 = n / 2 - 1 := by omega
+        rw [this] at hh
+        obtain ⟨k, hk⟩ := ih (n / 2) (by omega) hm (by simpa using hh.symm)
+        exact ⟨k + 1, by rw [Nat.pow_succ, ← hk]; omega⟩
+      · exfalso
+        have hh := and_half n (n - 1)
+        rw [hand] at hh
+        have : (n - 1) / 2 = n / 2 := by omega
+        rw [this, Nat.and_self] at hh
+        omega
+
+theorem pow2_of_isPow2 {n : Nat} (h : isPow2 n = true) : ∃ k, n = 2 ^ k := by
+  simp only [isPow2, Bool.and_eq_true, decide_eq_true_eq, beq_iff_eq] at h
+  exact pow2_of_bits n h.1 h.2
+
+theorem cap_step {s s' : State} {a : Action} (e : act s a = some s') :
+    s'.cap = s.cap ∨ s'.cap = s.cap * 2 ∨ isPow2 s'.cap = true := by
+  have hx : ∀ n, (extend s n).cap = s.cap ∨ (extend s n).cap = n := fun n => by
+    unfold extend; split <;> simp
+  cases a with
+  | call t op => simp only [act] at e; split at e <;> simp at e; subst e; simp [addLog, setPc]
+  | cancel t => simp only [act] at e; simp at e; subst e; simp
+  | ctxWake t =>
+    simp only [act] at e
+    split at e
+    · split at e <;> simp at e <;> subst e <;> simp [setPc]
+    · simp at e
+  | step t =>
+    simp only [act] at e
+    unfold stepT at e
+    split at e
+    all_goals (try dsimp only at e)
+    all_goals (repeat' (split at e))
+    all_goals (try (simp at e; done))
+    all_goals (simp only [Option.some.injEq] at e; subst e)
+    all_goals (try (simp [addLog, setPc, enter, leave, setSlot]; done))
+    · -- sExt with extend
+      rcases hx (s.cap * 2) with h | h
+      · exact Or.inl (by simp [setPc, h])
+      · exact Or.inr (Or.inl (by simp [setPc, h]))
+    · -- gEnter with extend
+      rename_i n _ hp _
+      rcases hx n with h | h
+      · exact Or.inl h
+      · right; right
+        show isPow2 (extend s n).cap = true
+        rw [h]; simpa using hp
+
+/-- the capacity is always a power of two, so the code's `value & (capacity-1)` is the model's
+`value % cap` (`mask_eq_mod`) -/
+theorem mpmc_cap_pow2 {c : Nat} {x : Int} {s0 : State} (h : init c x = some s0) (as : List Action) :
+    ∃ k, (run s0 as).cap = 2 ^ k ∧ ∀ pos, pos &&& ((run s0 as).cap - 1) = pos % (run s0 as).cap := by
+  have := run_induction (P := fun r => ∃ k, r.cap = 2 ^ k) (s := s0)
+    (by
+      unfold init at h
+      split at h
+      · simp at h
+      · rename_i hc
+        simp at hc
+        simp at h; subst h
+        exact pow2_of_isPow2 hc.2)
+    (fun r a r' ⟨k, hk⟩ e => by
+      rcases cap_step e with h1 | h1 | h1
+      · exact ⟨k, by rw [h1, hk]⟩
+      · exact ⟨k + 1, by rw [h1, hk, Nat.pow_succ]⟩
+      · exact pow2_of_isPow2 h1) as
+  obtain ⟨k, hk⟩ := this
+  exact ⟨k, hk, fun pos => by rw [hk]; exact mask_eq_mod pos k⟩
+
+end Pow2
+
+section History
+open OpenFGAVerif.Model.Mpmc OpenFGAVerif.Proofs.Mpmc
+
+/-- the linearisation labels of the enabled actions of a schedule, in order -/
+def trace (s : State) : List Action → List (Option Val)
+  | [] => []
+  | a :: as =>
+    match act s a with
+    | some s' => (match lin s a with | some l => [l] | none => []) ++ trace s' as
+    | none => trace s as
+
+/-- sequential FIFO queue: `some v` enqueues, `none` dequeues (illegal on an empty queue) -/
+def fifoStep (q : List Val) : Option Val → Option (List Val)
+  | some v => some (q ++ [v])
+  | none => match q with
+    | [] => none
+    | _ :: q' => some q'
+
+def fifoRun (q : List Val) : List (Option Val) → Option (List Val)
+  | [] => some q
+  | l :: ls => (fifoStep q l).bind (fun q' => fifoRun q' ls)
+
+theorem history_from {s : State} (hi : Inv s) (as : List Action) :
+    fifoRun (absQ s) (trace s as) = some (absQ (run s as)) := by
+  induction as generalizing s with
+  | nil => rfl
+  | cons a as ih =>
+    simp only [trace, run, runCount]
+    cases e : act s a with
+    | none =>
+      have := ih hi
+      simp only [run] at this
+      exact this
+    | some s' =>
+      have hr := refines_fifo hi e
+      have := ih (inv_act hi e)
+      simp only [run] at this
+      cases hl : lin s a with
+      | none =>
+        rw [hl] at hr
+        simp only [List.nil_append]
+        rw [← hr]; exact this
+      | some l =>
+        rw [hl] at hr
+        cases l with
+        | some v =>
+          simp only [List.cons_append, List.nil_append, fifoRun, fifoStep, Option.bind]
+          rw [← hr]; exact this
+        | none =>
+          obtain ⟨t, pos, _, _, hq⟩ := hr
+          simp only [List.cons_append, List.nil_append, fifoRun, fifoStep, hq, Option.bind]
+          exact this
+
+/-- **The history of linearisation points is a legal sequential FIFO history**: replaying the
+head-CAS / tail-CAS labels of any schedule on a sequential FIFO queue never dequeues from an empty
+queue and ends in exactly the abstract content of the real ring. -/
+theorem mpmc_history_is_fifo {c : Nat} {x : Int} {s0 : State} (h : init c x = some s0) (as : List Action) :
+    fifoRun [] (trace s0 as) = some (absQ (run s0 as)) := by
+  have h0 : absQ s0 = [] := by
+    unfold init at h
+    split at h <;> simp at h
+    subst h; rfl
+  have := history_from (inv_init h) as
+  rw [h0] at this
+  exact this
+
+end History
 
 /-! ## mpsc.Accumulator -/
 section MpscTheorems
